@@ -25,7 +25,7 @@ LEVEL = {
  'C17': ('E1+E2', 'rely/guarantee step over the counters (one get_work / push from any state satisfying in_count == out_count + linked + pending, any number of concurrent pushers; covers histories of any length for the counter protocol) + work queue: every interleaving of a draining worker with 1-2 concurrent pushers, sequential hand-over, and (thorough) the general program in which any of 2-3 pushing threads may become the worker'),
  'C18': ('E1+E2', 'spinlock word transitions for all 2^64 words (wrap-around) + contention scenario'),
  'C19': ('E3+E1', 'the x86-64 context-switch assembly interpreted symbolically over z3 bit-vectors for all register/memory contents (round trip, invariant induction, fresh context) + fiber_context_init / create / destroy for all stack sizes in range under CBMC'),
- 'C20': ('E2', 'double-word-CAS structures: every interleaving of ABA-provoking programs (pop / reuse / push) on lifo, dist_fifo, mpmc_stack, multi-signal'),
+ 'C20': ('E1+E2', 'rely/guarantee step over the multi-signal double word (one wait/raise from an arbitrary (counter, head) pair, arbitrary transitions of other fibers before every atomic access) + double-word-CAS structures: every interleaving of ABA-provoking programs (pop / reuse / push) on lifo, dist_fifo, mpmc_stack, multi-signal'),
 }
 NOT_APPLICABLE = {
 }
@@ -58,7 +58,7 @@ m = {
            'baseline_off_cmd': 'cd /repo && cmake -G Ninja -B _build >/dev/null && (cmake --build _build -- -k 0 >/dev/null; ctest --test-dir _build -j8 --timeout 900)',
            'source_commits': [], 'add_only': True},
  'engines': [
-  {'name': 'E1 cbmc-src', 'path': 'e1/', 'serves_properties': ['C03', 'C05', 'C06', 'C07', 'C08', 'C09', 'C11', 'C12', 'C13', 'C14', 'C17', 'C18', 'C19'], 'kind_free_text': 'CBMC on the real .c files with contract stubs for the environment'},
+  {'name': 'E1 cbmc-src', 'path': 'e1/', 'serves_properties': ['C03', 'C05', 'C06', 'C07', 'C08', 'C09', 'C11', 'C12', 'C13', 'C14', 'C17', 'C18', 'C19', 'C20'], 'kind_free_text': 'CBMC on the real .c files with contract stubs for the environment'},
   {'name': 'E2 fvm', 'path': 'e2/', 'serves_properties': ['C01', 'C02', 'C03', 'C04', 'C05', 'C06', 'C07', 'C09', 'C10', 'C11', 'C12', 'C13', 'C14', 'C15', 'C16', 'C17', 'C18', 'C20'], 'kind_free_text': 'clang -O1 IR of the real units -> ir2cell -> C over integer cell memory -> CBMC threads (--mm sc / tso)'},
   {'name': 'E3 x86sym', 'path': 'e3/', 'serves_properties': ['C19'], 'kind_free_text': 'z3 symbolic interpreter for the inline assembly of fiber_context_swap extracted from the IR'},
  ],
